@@ -655,6 +655,31 @@ func init() {
 		}
 		return out
 	}
+	// the same parse repeated: GSUB1 chooses its format while ranging over a Go map, so a defect
+	// there shows only for some iteration orders.  All repetitions must give the same outcome.
+	repeat := func(reps int, once func() string) string {
+		first := once()
+		for i := 1; i < reps; i++ {
+			if o := once(); o != first {
+				return "unstable:" + first + "|" + o
+			}
+		}
+		return first
+	}
+	ops["dsl.rtrepeat"] = func(f Fields) string {
+		return dslCanonPanic(guard(func() string {
+			font := dslFontOf(f)
+			txt := dslExplain(font, f)
+			return repeat(f.Int("reps"), func() string { return dslOutcome(builder.Parse(font, txt)) })
+		}))
+	}
+	ops["dsl.parserepeat"] = func(f Fields) string {
+		return dslCanonPanic(guard(func() string {
+			font := dslFontOf(f)
+			txt := string(f.Hex("text"))
+			return repeat(f.Int("reps"), func() string { return dslOutcome(builder.Parse(font, txt)) })
+		}))
+	}
 	dslWorkerEnter()
 }
 
@@ -783,6 +808,42 @@ func genSubtable(c *Ctx, n, t int) gtab.Subtable {
 			d := r.Range(-minG, n-1-maxG)
 			c.Stat("rt.form", "gsub1.1")
 			return &gtab.Gsub1_1{Cov: set, Delta: glyph.ID(d)}
+		}
+		if r.Chance(2, 5) {
+			// identity entries among entries that share one offset (possibly "negative", i.e. wrapping
+			// modulo 65536), or only identity entries: the parser must keep format 2 / offset 0
+			sub := make([]glyph.ID, len(cov))
+			ids := r.Range(1, 3)
+			if r.Chance(1, 5) {
+				ids = len(cov)
+			}
+			isID := make([]bool, len(cov))
+			for k := 0; k < ids; k++ {
+				isID[r.Intn(len(cov))] = true
+			}
+			lo, hi := -1, -1
+			for i, g := range cov {
+				if !isID[i] {
+					if lo < 0 {
+						lo = int(g)
+					}
+					hi = int(g)
+				}
+			}
+			d := 0
+			if lo >= 0 {
+				for tries := 0; tries < 20 && d == 0; tries++ {
+					d = r.Range(-lo, n-1-hi)
+				}
+			}
+			for i, g := range cov {
+				sub[i] = g
+				if !isID[i] {
+					sub[i] = glyph.ID(int(g) + d) // uint16 arithmetic wraps for d < 0
+				}
+			}
+			c.Stat("rt.form", "gsub1.2 identity entries")
+			return &gtab.Gsub1_2{Cov: covOf(cov), SubstituteGlyphIDs: sub}
 		}
 		sub := make([]glyph.ID, len(cov))
 		constant := r.Chance(1, 4)
@@ -1072,6 +1133,14 @@ func mutate(r *Rng, s string) string {
 
 // dslRangeTemplates: every place of the language where a glyph list is read; %s is replaced by
 // a glyph range (or, sometimes, a plain glyph).
+// dslGsub1Order: GSUB1 texts whose format choice must not depend on the order in which the
+// parser's map is visited (identity entries, one shared offset, offsets that wrap).
+var dslGsub1Order = []string{
+	"GSUB1: A -> A, B -> C", "GSUB1: A -> A, B -> C, C -> D", "GSUB1: A-C -> A-C", "GSUB1: A -> A", "GSUB1: B -> A, C -> B, D -> D",
+	"GSUB1: A -> B, C -> C, E -> F, G -> G, I -> J", "GSUB1: A -> A, B -> B ||\n\tC -> A, D -> D", "GSUB1: Z -> A, Y -> Y", "GSUB1: 3 -> 3, 4 -> 6, 5 -> 7",
+	"GSUB1: A -> A, B -> C, C -> E", "GSUB1: -marks A - D -> B - E, M -> M",
+}
+
 var dslRangeTemplates = []string{
 	"GSUB1: %s -> %s", "GSUB1: -marks %s -> %s, %s -> A", "GSUB2: A -> %s", "GSUB2: %s -> B %s", "GSUB3: A -> [%s]", "GSUB3: %s -> [B %s]",
 	"GSUB4: %s -> B", "GSUB4: A %s -> %s", "GPOS1: [%s] -> x+1", "GPOS1: %s -> x+1 || [%s] -> dy-2", "GPOS2: %s -> x+1 & _",
@@ -1281,6 +1350,14 @@ func areaDsl(c *Ctx) {
 				t = Pick(r, []string{"GSUB1", "GSUB2", "GSUB3", "GSUB4", "GPOS1", "GPOS2", "GPOS3", "GPOS4", "GSUB5", "GSUB6", "GPOS7", "GPOS8"}) + ": " + randText(r)
 				c.Stat("parse.text", "fragments")
 			}
+			if r.Chance(1, 8) {
+				t = Pick(r, dslGsub1Order)
+				if r.Chance(1, 3) {
+					t = mutate(r, t)
+				}
+				c.Stat("parse.text", "gsub1 identity entries (repeated)")
+				c.Case(Verdict, "dsl.parserepeat", d.args()+" reps=24 text="+hx([]byte(t)), true)
+			}
 			out := c.Case(Verdict, "dsl.parse", d.args()+" text="+hx([]byte(t)), true)
 			if strings.HasPrefix(out, "ok:") {
 				c.Stat("parse.outcome", "ok")
@@ -1312,6 +1389,12 @@ func areaDsl(c *Ctx) {
 			args := d.args() + " tab=" + tab + " lookups=" + showLookups(ll)
 			c.Case(Verdict, "dsl.explain", args, true)
 			c.Case(Verdict, "dsl.modelrt", args, true)
+			for _, l := range ll {
+				if tab == "gsub" && l.Meta.LookupType == 1 { // format choice ranges over a map: repeat
+					c.Case(Direct, "dsl.rtrepeat", args+" reps=24", true)
+					break
+				}
+			}
 			out := c.Case(Direct, "dsl.roundtrip", args, true)
 			if strings.HasPrefix(out, "ok:") {
 				c.Stat("rt.outcome", "parsed")
